@@ -204,7 +204,7 @@ theorem stringEntry_isSome [Mul K] [OfNat K 0] [OfNat K 1] (c : Ctx K) (n : Name
   split
   · rfl
   · simp only [Name.force_eq]
-    cases nameToSymbol c.globals c.inv (parserRewrite n) with
+    cases nameToSymbol c.globals c.inv c.rewritten (parserRewrite n) with
     | none => rfl
     | some s =>
       simp only [lookupSplit_isSome]
